@@ -26,7 +26,7 @@ RULE = ("program: main + 1..5 flows in a call DAG (each flow either only activat
         "StopFlow / FinishFlow / deactivate / early-restart label, nesting depth <= 4, 15 % with a conflict cluster (2-3 flows matching the same event and then "
         "starting an action), 8 % of the programs with >= 2 activated flows mutually activating, 35 % with a dying-sender race cluster "
         "(two flows waiting for the same event: one ends the other's parent / the other itself - awaited by reference, or-group, when, StopFlow, FinishFlow, "
-        "failing - while the other queues activate / start / await / an action; twin activators ending with the activated flow; hand-over between two activators); history: 3..10 (quick) / up to 30 "
+        "failing - while the other queues activate / start / await / an action; twin activators ending with the activated flow; hand-over between two activators), 25 % of the programs with an activated flow give one of them a parameter (activated with two values, positionally or by name); history: 3..10 (quick) / up to 30 "
         "(thorough) items drawn from plain events and action Started/Finished events for already started actions "
         "(late, duplicated, after Stop, or never), race programs in 60 % with the race event followed later by the event that ends the holder of the activation, "
         "20 % of the histories with clock ticks > 5 s (clean-up of ended instances runs inside the history). non-trivial = at least one recorded outermost abort/finish call whose "
@@ -38,7 +38,7 @@ TRUSTED_BASE = [
 ]
 ASSUMPTIONS = [
     "heads abstracted to their number; event-matching index not modelled (C09)",
-    "flows without @meta tags (no *_LOG events); action names end in 'Action' and contain neither 'Start' nor 'Stop'",
+    "at most one activated flow per program has a parameter (one positional string argument); flows without @meta tags (no *_LOG events); action names end in 'Action' and contain neither 'Start' nor 'Stop'",
     "each action instance is started by exactly one `send $ref.Start()` element (programs built from start/await/activate/when/groups)",
     "external events are plain events or <Action>Started/<Action>Finished events for action uids the interpreter emitted",
     "clean-up of old instances runs only where a history has a clock tick (20 % of the histories); the stretch of a trace across a clean-up is not replayed by the operation machine",
@@ -155,7 +155,28 @@ def gen_program(rng):
         prog["cycle"] = [x, y]
     if rng.random() < 0.35:
         _g_race(rng, prog)
+    _g_params(rng, prog)
     return prog
+
+
+def _g_params(rng, prog):
+    """25 % of the programs with an activated flow: one activated flow gets a parameter `$p`; every `activate` of it passes "u" (70 %)
+    or "v" - each value has its own reference instance (`_get_reference_activated_flow_instance` compares the parameters),
+    activators of different values must not share an instance, activators of the same value must."""
+    kinds = prog["kinds"]
+    cand = [n for n in prog["flows"] if kinds.get(n) == "act" and n not in prog.get("cycle", [])]
+    if not cand or rng.random() >= 0.25:
+        return
+    a = rng.choice(cand)
+    n = 0
+    for body in prog["flows"].values():
+        for st in _walk(body):
+            if st[0] == "activate" and st[1] == a and len(st) == 2:
+                st.append("u" if rng.random() < 0.7 else "v")
+                st.append(rng.choice(["pos", "pos", "named"]))   # `activate a "u"` / `activate a(p="u")`: the same reference instance
+                n += 1
+    if n:
+        prog["params"] = [a]
 
 
 def _g_race(rng, prog):
@@ -346,6 +367,8 @@ def _render(stmts, ind, out):
             out.append(f'{p}start UtteranceBotAction(script="{st[1]}")')
         elif k == "await_act":
             out.append(f'{p}await UtteranceBotAction(script="{st[1]}")')
+        elif k == "activate" and len(st) > 2:
+            out.append(f'{p}activate {st[1]}(p="{st[2]}")' if st[3:] == ["named"] else f'{p}activate {st[1]} "{st[2]}"')
         elif k in ("start", "await", "activate", "deactivate"):
             out.append(f"{p}{k} {st[1]}")
         elif k == "match_group":
@@ -380,7 +403,7 @@ def _render(stmts, ind, out):
 def render_program(prog):
     out = []
     for nm, body in prog["flows"].items():
-        out.append(f"flow {nm}")
+        out.append(f"flow {nm} $p" if nm in prog.get("params", []) else f"flow {nm}")
         _render(body, 1, out)
         out.append("")
     return "\n".join(out)
@@ -581,7 +604,7 @@ def _install():
             a = event.arguments
             src = a.get("source_flow_instance_uid")
             if a.get("activated", None) and src in state.flow_states and state.flow_states[src].flow_id != a.get("flow_id"):
-                R.activations.append({"step": R.step, "src": src, "fid": a.get("flow_id")})
+                R.activations.append({"step": R.step, "src": src, "fid": a.get("flow_id"), "arg": a.get("$0", a.get("p"))})
         return o_push(state, event)
 
     sm._push_internal_event = w_push
@@ -708,7 +731,7 @@ def worker_init():
 
 def _flows_obs(state):
     return [{"uid": u, "fid": f.flow_id, "status": f.status.name, "parent": f.parent_uid, "activated": int(f.activated),
-             "children": list(f.child_flow_uids), "actions": list(f.action_uids)} for u, f in state.flow_states.items()]
+             "children": list(f.child_flow_uids), "actions": list(f.action_uids), "arg": f.arguments.get("p")} for u, f in state.flow_states.items()]
 
 
 def run_impl(case):
@@ -848,7 +871,8 @@ _STATUS_PATH = {("WAITING", "STARTING"): ["STARTING"], ("WAITING", "STARTED"): [
 
 def _gap_request(prev, nxt, cleanup_ok=False):
     """prev / nxt: {"flows": [...], "actions": [...]} snapshots. Returns (request, expected, problem).
-    cleanup_ok: the two calls belong to different steps of a history with clock ticks (`_clean_up_state` may have run)."""
+    cleanup_ok: the two calls belong to different steps (`_clean_up_state` runs at the start of every step; it removes instances
+    after a clock tick - or, on a very slow machine, when a case takes more than 5 s of real time)."""
     pf = {f["uid"]: f for f in prev["flows"]}
     nf = {f["uid"]: f for f in nxt["flows"]}
     pa = {a["uid"]: a for a in prev["actions"]}
@@ -934,7 +958,7 @@ def _gap_items(obs):
             continue
         items.append(_gap_request({"flows": a["post"]["flows"], "actions": a["post"]["actions"]},
                                   {"flows": b["pre"]["flows"], "actions": b["pre"]["actions"]},
-                                  cleanup_ok=bool(obs.get("ticked")) and a.get("step") != b.get("step")))
+                                  cleanup_ok=a.get("step") != b.get("step")))
     return items
 
 
@@ -1154,6 +1178,7 @@ def compare(case, obs, mouts):
 
 # ============================================================================= oracle (property statement)
 
+_ANY = object()
 _LISTENING = ("WAITING", "STARTING", "STARTED")
 _RUNNING = ("STARTING", "STARTED")
 _DONE = ("FINISHED", "STOPPED")
@@ -1190,6 +1215,7 @@ def oracle(case, obs):
     if "init_exc" in obs:
         return "exception outside run_to_completion: " + obs["init_exc"]
     kinds, targeted, early = _prog_info(case)
+    params = set(case.get("prog", case).get("params", []))
     starts, stops = {}, {}
     finished_rx = set()
     # instances that were observed STARTED at any observation point (step ends and recorded calls)
@@ -1250,9 +1276,9 @@ def oracle(case, obs):
         flows = {f["uid"]: f for f in step["flows"]}
         listening = [f for f in step["flows"] if f["status"] in _LISTENING]
 
-        def activators(fid):
+        def activators(fid, arg=_ANY):
             return [q for q in step["flows"] if q["status"] in _RUNNING and q["fid"] != fid
-                    and any(c in flows and flows[c]["fid"] == fid for c in q["children"])]
+                    and any(c in flows and flows[c]["fid"] == fid and (arg is _ANY or flows[c].get("arg") == arg) for c in q["children"])]
 
         # O2: when an instance has finished/failed, everything it started (transitively) has stopped
         for c in listening:
@@ -1279,34 +1305,43 @@ def oracle(case, obs):
                     if starts.get(a) and a not in finished_rx and a not in held and not stops.get(a):
                         return f"step {si}: action {a} started by {p['uid']} ({p['status']}) is unfinished, not shared with a running flow, and got no Stop"
         # O4: activated flows
+        keys = []
         for fid, k in kinds.items():
             if k != "act" or fid in targeted:
                 continue
-            inst = [f for f in listening if f["fid"] == fid]
-            acts = activators(fid)
+            if fid in params:
+                # a flow with a parameter has one reference instance per value that was ever passed
+                vals = {a.get("arg") for a in obs.get("activations", []) if a["fid"] == fid} | {f.get("arg") for f in step["flows"] if f["fid"] == fid}
+                keys += [(fid, v) for v in sorted(vals, key=str)]
+            else:
+                keys.append((fid, _ANY))
+        for fid, arg in keys:
+            label = fid if arg is _ANY else f'{fid} "{arg}"'
+            inst = [f for f in listening if f["fid"] == fid and (arg is _ANY or f.get("arg") == arg)]
+            acts = activators(fid, arg)
             if acts and not inst:
                 # an instance that FAILS before it was ever started is deliberately not restarted (it would loop forever)
-                allinst = [f for f in step["flows"] if f["fid"] == fid]
+                allinst = [f for f in step["flows"] if f["fid"] == fid and (arg is _ANY or f.get("arg") == arg)]
                 if allinst and allinst[-1]["status"] == "STOPPED" and allinst[-1]["uid"] not in started_seen:
                     continue
-                return f"step {si}: activated flow {fid} has a running activator ({acts[0]['uid']}) but no running instance"
+                return f"step {si}: activated flow {label} has a running activator ({acts[0]['uid']}) but no running instance"
             if not acts and inst:
-                return f"step {si}: activated flow {fid} is still running ({inst[0]['uid']}) although no running flow activates it"
+                return f"step {si}: activated flow {label} is still running ({inst[0]['uid']}) although no running flow activates it"
             if len(inst) > 1 and fid not in early:
-                return f"step {si}: activated flow {fid} has {len(inst)} running instances (restarted more than once): " + ", ".join(x["uid"] for x in inst)
+                return f"step {si}: activated flow {label} has {len(inst)} running instances (restarted more than once): " + ", ".join(x["uid"] for x in inst)
             # O6: the same clause with the activators taken from the HISTORY of executed `activate` statements (who executed
             # `activate fid`, and is that instance still running) instead of from the interpreter's own book-keeping
             # (`child_flow_uids` / `activated`): an activated flow runs only while a flow that activated it is alive
             if "activations" in obs:
                 alive = sorted({a["src"] for a in obs["activations"] if a["fid"] == fid and a["step"] <= si
-                                and flows.get(a["src"], {}).get("status") in _RUNNING})
+                                and (arg is _ANY or a.get("arg") == arg) and flows.get(a["src"], {}).get("status") in _RUNNING})
                 if inst and not alive:
-                    return (f"step {si}: activated flow {fid} is still running ({inst[0]['uid']}) although every flow that executed "
-                            f"`activate {fid}` has ended")
+                    return (f"step {si}: activated flow {label} is still running ({inst[0]['uid']}) although every flow that executed "
+                            f"`activate {label}` has ended")
                 if alive and not inst:
-                    allinst = [f for f in step["flows"] if f["fid"] == fid]
+                    allinst = [f for f in step["flows"] if f["fid"] == fid and (arg is _ANY or f.get("arg") == arg)]
                     if not (allinst and allinst[-1]["status"] == "STOPPED" and allinst[-1]["uid"] not in started_seen):
-                        return f"step {si}: {alive[0]} executed `activate {fid}` and is still running but {fid} has no running instance"
+                        return f"step {si}: {alive[0]} executed `activate {label}` and is still running but {label} has no running instance"
     return None
 
 
@@ -1468,6 +1503,8 @@ def tags(case, obs):
         t.append("clock-tick")
     if case.get("prog", {}).get("race"):
         t.append("race:" + case["prog"]["race"]["form"])
+    if case.get("prog", {}).get("params"):
+        t.append("flow-parameter")
     if any(r["op"] == "startflow" and r.get("res") and r["res"]["r"] == "ignored" and r["info"]["known"] for r in obs.get("records", [])):
         t.append("startflow-of-ended-sender-dropped")
     t = sorted(set(t)) + ["flows:" + str(len(case.get("prog", {}).get("flows", {})))]
@@ -1486,6 +1523,8 @@ def shrink(case):
     flows = case["prog"]["flows"]
     for nm, body in flows.items():
         for i in range(len(body)):
+            if body[i][0] == "start_as":
+                continue   # its reference is matched later (`match $k.Finished()`): removing it alone changes the failure
             if len(body) > 1:
                 nb = body[:i] + body[i + 1:]
                 yield dict(case, prog=dict(case["prog"], flows=dict(flows, **{nm: nb})))
